@@ -428,6 +428,8 @@ func runC04(c *Ctx) {
 			"an entry is downloaded only if there is no predicate or the predicate returned true for its name",
 			"the selection predicate no longer gates `go downloadBundleEntry`: a filtered download would fetch other files or miss selected ones")
 	}
+	checkIteratorNilOnlyAtExhaustion(c, "index-count.iterator-nil-at-exhaustion")
+	checkSpecificKeysPlumbing(c, "plumbing.selected-keys")
 }
 
 // disjuncts splits a || b || c.
